@@ -61,7 +61,7 @@ fn api_of(a: usize) -> usize {
     }
 }
 
-const NREG: usize = 65;
+const NREG: usize = 85;
 const R_BLOCKED: usize = 6; // + flag index
 const R_XTX: usize = 10;
 const R_NC_SMALLER: usize = 11;
@@ -75,6 +75,11 @@ const R_DOT_NC: usize = 33; // + kind*4 + method
 /// Dot-trait products of integer data at other absolute scales (both operands are integers times a
 /// power of two): + kind*4 + method
 const R_DOT_SCALED: usize = 49;
+/// Rejection probes whose operands come from a *value class* (all zeros of either sign, all ones,
+/// identity-like, NaN / inf filled, ...): slice API (+ class) and Dot trait (+ class)
+const R_NCV: usize = 65;
+const R_DOT_NCV: usize = 75;
+const VCLASSES: [&str; 10] = ["zeros", "neg-zeros", "mixed-zeros", "ones", "identity-like", "nan", "inf", "sparse", "constant", "tiny-and-huge"];
 const KINDS: [&str; 4] = ["MM", "MV", "VM", "VV"];
 
 fn regime_name(r: usize) -> String {
@@ -94,6 +99,8 @@ fn regime_name(r: usize) -> String {
         R_DOT_TT_SCALAR => "dot:MM:t_dot_t:scalar".into(),
         R_DOT_TT_SQUARE => "dot:MM:t_dot_t:square".into(),
         33..=48 => format!("dot-nonconf:{}:{}", KINDS[(r - 33) / 4], METHODS[(r - 33) % 4]),
+        65..=74 => format!("nonconf-values:{}", VCLASSES[r - R_NCV]),
+        75..=84 => format!("dot-nonconf-values:{}", VCLASSES[r - R_DOT_NCV]),
         _ => format!("dot-scaled:{}:{}", KINDS[(r - R_DOT_SCALED) / 4], METHODS[(r - R_DOT_SCALED) % 4]),
     }
 }
@@ -118,10 +125,21 @@ fn flag_regime(ta: bool, tb: bool, m: usize, l: usize, n: usize) -> usize {
     }
 }
 
-const SEEN: [&str; 11] = [
+const NSEEN: usize = 25;
+const SEEN: [&str; NSEEN] = [
     "data=int", "data=real", "dot-form=(S,T)", "dot-form=(S,&T)", "dot-form=(&S,T)", "dot-form=(&S,&T)",
     "dot-scaled:both-operands-below-2^-52", "dot-scaled:tiny-times-huge", "dot-scaled:mixed-scales", "dot-scaled:same-shape-different-operands", "dot-scaled:real-data",
+    "nonconf-values:both-operands-in-class", "nonconf-values:left-operand-in-class", "nonconf-values:right-operand-in-class",
+    "nonconf-values:flags=NN", "nonconf-values:flags=TN", "nonconf-values:flags=NT", "nonconf-values:flags=TT",
+    "dot-nonconf-values:MM", "dot-nonconf-values:MV", "dot-nonconf-values:VM", "dot-nonconf-values:VV",
+    "nonconf-values:equal-lengths", "nonconf-values:dimension=1", "nonconf-values:shapes-up-to-24",
 ];
+const S_V_SIDE: usize = 11;
+const S_V_FLAGS: usize = 14;
+const S_V_KIND: usize = 18;
+const S_V_EQLEN: usize = 22;
+const S_V_DIM1: usize = 23;
+const S_V_LARGE: usize = 24;
 const S_SC_TINY: usize = 6;
 const S_SC_TINYHUGE: usize = 7;
 const S_SC_MIXED: usize = 8;
@@ -132,7 +150,7 @@ struct Tally {
     cases: [u64; NREG],
     checks: Vec<[(u64, u64); NREG]>,
     first: Vec<(usize, usize, Value)>,
-    seen: [u64; 11],
+    seen: [u64; NSEEN],
     distinct: Vec<u64>,
     worst: [[f64; 2]; 4],
     samples: Vec<Value>,
@@ -141,7 +159,7 @@ struct Tally {
 }
 impl Tally {
     fn new(lean: bool) -> Self {
-        Tally { cases: [0; NREG], checks: vec![[(0, 0); NREG]; ASSERTS.len()], first: Vec::new(), seen: [0; 11], distinct: Vec::new(), worst: [[-1.0; 2]; 4], samples: Vec::new(), bitwise: [0; 2], lean }
+        Tally { cases: [0; NREG], checks: vec![[(0, 0); NREG]; ASSERTS.len()], first: Vec::new(), seen: [0; NSEEN], distinct: Vec::new(), worst: [[-1.0; 2]; 4], samples: Vec::new(), bitwise: [0; 2], lean }
     }
     fn case(&mut self, r: usize) {
         self.cases[r] += 1;
@@ -408,6 +426,113 @@ fn slice_not_matrix(t: &mut Tally, rng: &mut Rng) {
     t.check(A_BL_REJECTS, R_NC_NOTMAT, gb.is_err(), &|| json!({"api": "matmul_blocked", "ragged_len": len, "rows": rows, "ragged_operand_left": left, "observed": jres(&gb)}));
 }
 
+
+// ---------------------------------------------------------------------------------------------
+// Rejection must not depend on the operand VALUES: the non-conformable probes once more with
+// operands from value classes for which a product has a shortcut (zero, one, identity) or for which
+// comparisons behave specially (signed zeros, NaN, inf), in both operands or in one of them only.
+
+const SIDES: [&str; 3] = ["both", "left", "right"];
+
+/// An r×c operand of value class `class` (index into VCLASSES).
+fn vfill(rng: &mut Rng, class: usize, r: usize, c: usize) -> Vec<f64> {
+    let k = r * c;
+    match class {
+        0 => vec![0.0; k],
+        1 => vec![-0.0; k],
+        2 => (0..k).map(|_| if rng.bool() { 0.0 } else { -0.0 }).collect(),
+        3 => vec![1.0; k],
+        4 => (0..k).map(|i| if i / c == i % c { 1.0 } else { 0.0 }).collect(),
+        5 => vec![f64::NAN; k],
+        6 => (0..k).map(|_| if rng.bool() { f64::INFINITY } else { f64::NEG_INFINITY }).collect(),
+        7 => {
+            let mut v = vec![0.0; k];
+            let i = rng.usize(0, k - 1);
+            v[i] = rng.int(1, 50) as f64 * if rng.bool() { 1.0 } else { -1.0 };
+            v
+        }
+        8 => {
+            let cst = if rng.bool() { rng.int(1, 50) as f64 } else { rng.normal() * 3.0 + 0.25 } * if rng.bool() { 1.0 } else { -1.0 };
+            vec![cst; k]
+        }
+        _ => (0..k).map(|_| *rng.choose(&[5e-324, -5e-324, f64::MIN_POSITIVE, 1e-300, f64::MAX, f64::MIN, 1e300, -1e300])).collect(),
+    }
+}
+
+/// The operand pair of a value-class probe: `side` 0 = both operands in the class, 1 = the left one only,
+/// 2 = the right one only (the other one: non-zero integers, as in the ordinary rejection probes).
+fn vpair(t: &mut Tally, rng: &mut Rng, class: usize, side: usize, ar: usize, ac: usize, br: usize, bc: usize) -> (Vec<f64>, Vec<f64>) {
+    t.seen[S_V_SIDE + side] += 1;
+    if ar * ac == br * bc {
+        t.seen[S_V_EQLEN] += 1;
+    }
+    if ar.min(ac).min(br).min(bc) == 1 {
+        t.seen[S_V_DIM1] += 1;
+    }
+    if ar.max(ac).max(br).max(bc) > 9 {
+        t.seen[S_V_LARGE] += 1;
+    }
+    let a = if side == 2 { rng.ints(ar * ac, 1, 50) } else { vfill(rng, class, ar, ac) };
+    let b = if side == 1 { rng.ints(br * bc, 1, 50) } else { vfill(rng, class, br, bc) };
+    (a, b)
+}
+
+/// Non-conformable product through the slice API (op(A) is m×la, op(B) is lb×n, la ≠ lb; both slices are
+/// valid matrices for their row counts) with operands of value class `class`: `matmul` and `matmul_blocked`
+/// must panic whatever the operands contain.
+fn slice_nonconf_values(t: &mut Tally, rng: &mut Rng, m: usize, la: usize, lb: usize, n: usize, ta: bool, tb: bool, class: usize, side: usize, blocked: bool) {
+    let (ar, ac) = if ta { (la, m) } else { (m, la) };
+    let (br, bc) = if tb { (n, lb) } else { (lb, n) };
+    let (a, b) = vpair(t, rng, class, side, ar, ac, br, bc);
+    let r = R_NCV + class;
+    t.seen[S_V_FLAGS + flag_index(ta, tb)] += 1;
+    t.case(r);
+    let got = guard(|| matmul(&a, &b, ar, br, ta, tb));
+    t.check(A_MM_REJECTS, r, got.is_err(), &|| {
+        json!({"api": "matmul", "value_class": VCLASSES[class], "operands_in_class": SIDES[side],
+               "a": jf(&a), "a_stored_shape": [ar, ac], "b": jf(&b), "b_stored_shape": [br, bc], "transpose_a": ta, "transpose_b": tb,
+               "op_a_shape": [m, la], "op_b_shape": [lb, n], "observed": jres(&got), "expected": "panic"})
+    });
+    if blocked {
+        let bs = rng.usize(1, 2 * m.max(la).max(lb).max(n));
+        t.case(r);
+        let gb = guard(|| matmul_blocked(&a, &b, ar, br, ta, tb, bs));
+        t.check(A_BL_REJECTS, r, gb.is_err(), &|| {
+            json!({"api": "matmul_blocked", "value_class": VCLASSES[class], "operands_in_class": SIDES[side],
+                   "a": jf(&a), "a_stored_shape": [ar, ac], "b": jf(&b), "b_stored_shape": [br, bc], "transpose_a": ta, "transpose_b": tb,
+                   "bsize": bs, "op_a_shape": [m, la], "op_b_shape": [lb, n], "observed": jres(&gb), "expected": "panic"})
+        });
+    }
+}
+
+/// The same through the Dot trait: method `meth`, ownership form `form`, operand kind `kind` (a vector
+/// stands for m = 1 resp. n = 1).
+fn dot_nonconf_values(t: &mut Tally, rng: &mut Rng, kind: usize, m: usize, la: usize, lb: usize, n: usize, meth: usize, form: usize, class: usize, side: usize) {
+    let (ta, tb) = FLAGS[meth];
+    let (m, n) = (if kind == VM || kind == VV { 1 } else { m }, if kind == MV || kind == VV { 1 } else { n });
+    // stored shapes: a promoted vector ignores the transpose request
+    let (ar, ac) = if kind == VM || kind == VV { (1, la) } else if ta { (la, m) } else { (m, la) };
+    let (br, bc) = if kind == MV || kind == VV { (lb, 1) } else if tb { (n, lb) } else { (lb, n) };
+    let (a, b) = vpair(t, rng, class, side, ar, ac, br, bc);
+    t.seen[S_V_KIND + kind] += 1;
+    dot_case_at(t, kind, meth, form, &a, ar, ac, &b, br, bc, false, false, Some(class));
+}
+
+/// One point (m, la ≠ lb, n) of the rejection grid through every flag combination / Dot method with the
+/// operands of value class `class`. `all_sides`: both / left / right at every call, else rotating.
+fn nonconf_values_point(t: &mut Tally, rng: &mut Rng, i: usize, m: usize, la: usize, lb: usize, n: usize, class: usize, all_sides: bool) {
+    let sides: Vec<usize> = if all_sides { vec![0, 1, 2] } else { vec![(i + class) % 3] };
+    for (fi, &(ta, tb)) in FLAGS.iter().enumerate() {
+        for &side in &sides {
+            let side = if all_sides { side } else { (side + fi) % 3 };
+            slice_nonconf_values(t, rng, m, la, lb, n, ta, tb, class, side, true);
+            let form = (i + fi + side) % 4;
+            let kind = (i / 4 + fi + class + side) % 4;
+            dot_nonconf_values(t, rng, kind, m, la, lb, n, fi, form, class, side);
+        }
+    }
+}
+
 fn xtx_case(t: &mut Tally, x: &[f64], k: usize, c: usize, real: bool) {
     let e = define(x, k, c, true, x, k, c, false, real).unwrap();
     t.case(R_XTX);
@@ -453,18 +578,22 @@ const VV: usize = 3;
 /// One Dot-trait call. `a` is stored ar×ac (a left Vector is 1×len), `b` is stored br×bc (a right
 /// Vector is len×1). `meth` 0..4 = dot, t_dot, dot_t, t_dot_t; `form` 0..4 = (S,T) (S,&T) (&S,T) (&S,&T).
 fn dot_case(t: &mut Tally, kind: usize, meth: usize, form: usize, a: &[f64], ar: usize, ac: usize, b: &[f64], br: usize, bc: usize, real: bool) {
-    dot_case_at(t, kind, meth, form, a, ar, ac, b, br, bc, real, false)
+    dot_case_at(t, kind, meth, form, a, ar, ac, b, br, bc, real, false, None)
 }
 
 /// `scaled`: the operands are a conformable pair at an absolute scale other than O(1); such calls are
 /// filed under the `dot-scaled:*` regimes (one per operand kind and method).
-fn dot_case_at(t: &mut Tally, kind: usize, meth: usize, form: usize, a: &[f64], ar: usize, ac: usize, b: &[f64], br: usize, bc: usize, real: bool, scaled: bool) {
+///
+/// `vclass`: a rejection probe of the value-class family (non-conformable by construction), filed under
+/// `dot-nonconf-values:<class>`.
+fn dot_case_at(t: &mut Tally, kind: usize, meth: usize, form: usize, a: &[f64], ar: usize, ac: usize, b: &[f64], br: usize, bc: usize, real: bool, scaled: bool, vclass: Option<usize>) {
     let (ta, tb) = FLAGS[meth];
     // a transpose request on a promoted vector does nothing
     let ta_eff = ta && (kind == MM || kind == MV);
     let tb_eff = tb && (kind == MM || kind == VM);
     let e = define(a, ar, ac, ta_eff, b, br, bc, tb_eff, real);
     let r = match &e {
+        None if vclass.is_some() => R_DOT_NCV + vclass.unwrap(),
         Some(_) if scaled => R_DOT_SCALED + kind * 4 + meth,
         // Matrix·Matrix t_dot_t is the only Dot method that reaches the both-transposed branch of matmul
         Some(e) if kind == MM && meth == 3 => {
@@ -656,18 +785,18 @@ fn dot_point_scaled(t: &mut Tally, rng: &mut Rng, m: usize, l: usize, n: usize, 
             };
             let a = fill(rng, ar * ac, fa);
             let b = fill(rng, br * bc, fb);
-            dot_case_at(t, MM, meth, form, &a, ar, ac, &b, br, bc, real, true);
+            dot_case_at(t, MM, meth, form, &a, ar, ac, &b, br, bc, real, true, None);
             if n == 1 {
                 let v = fill(rng, l, fb);
-                dot_case_at(t, MV, meth, form, &a, ar, ac, &v, l, 1, real, true);
+                dot_case_at(t, MV, meth, form, &a, ar, ac, &v, l, 1, real, true, None);
             }
             if m == 1 {
                 let v = fill(rng, l, fa);
-                dot_case_at(t, VM, meth, form, &v, 1, l, &b, br, bc, real, true);
+                dot_case_at(t, VM, meth, form, &v, 1, l, &b, br, bc, real, true, None);
             }
             if m == 1 && n == 1 {
                 let (x, y) = (fill(rng, l, fa), fill(rng, l, fb));
-                dot_case_at(t, VV, meth, form, &x, 1, l, &y, l, 1, real, true);
+                dot_case_at(t, VV, meth, form, &x, 1, l, &y, l, 1, real, true, None);
             }
         }
     }
@@ -741,6 +870,28 @@ fn random_nonconf(cfg: &Cfg, t: &mut Tally, rng: &mut Rng, i: usize) {
     }
 }
 
+/// Larger random rejection probes (dimensions up to 24) from the value classes; every other one with
+/// operands of equal length (m = k·lb, n = k·la: both slices hold k·la·lb numbers).
+fn random_nonconf_values(t: &mut Tally, rng: &mut Rng, i: usize) {
+    let class = i % VCLASSES.len();
+    let side = (i / VCLASSES.len()) % 3;
+    let (la, mut lb) = (rng.usize(1, 12), rng.usize(1, 12));
+    if lb == la {
+        lb += 1;
+    }
+    let (m, n) = if (i / 30) % 2 == 0 {
+        let k = rng.usize(1, 2);
+        (k * lb, k * la)
+    } else {
+        (rng.usize(1, 24), rng.usize(1, 24))
+    };
+    let fi = rng.usize(0, 3);
+    let (ta, tb) = FLAGS[fi];
+    slice_nonconf_values(t, rng, m, la, lb, n, ta, tb, class, side, true);
+    let (kind, form) = (rng.usize(0, 3), rng.usize(0, 3));
+    dot_nonconf_values(t, rng, kind, m, la, lb, n, fi, form, class, side);
+}
+
 fn random_real(cfg: &Cfg, t: &mut Tally, rng: &mut Rng, i: usize) {
     let hi = if cfg.miri() { 5 } else { 64 };
     let dim = |rng: &mut Rng| -> usize {
@@ -807,10 +958,12 @@ pub fn run(cfg: &Cfg, rep: &mut Report) {
          (+ Matrix.Vector when n=1, Vector.Matrix when m=1, Vector.Vector when m=n=1) and one non-conformable variant per method; \
          then non-conformable slice products (inner dimensions 1..=5, la != lb) and random real-valued shapes up to 64 \
          (Miri smoke: 2 block sizes, 1 Dot method and 1 ownership form per point, rotating). \
+         value-class rejection probes: the grid m,n in 1..=3, la != lb in 1..=5 x 4 flag combinations x 10 operand value classes (class in both / left / right operand) through matmul, matmul_blocked and one Dot method (operand kinds and ownership forms rotating), plus random shapes up to 24 (half of them with operands of equal length). \
          non-trivial = m*l*n > 1; distinct by (api, regime, shapes, flags, block size / ownership form, data kind)"
     );
     rep.assume("entries are finite; integer entries |a| <= 50 with inner dimension <= 64 so every partial sum is exact; real entries are N(0.25, 3^2) (no overflow/underflow in products)");
     rep.assume("dot-scaled regimes: Dot-trait products of two different operands that are integers (|a| <= 50) times 2^ka and 2^kb (exact: equality oracle) or N(0.25, 3^2) reals times those powers (bound gamma_l*sum|a||b|), ka, kb in -200..=200, a third of the pairs with both operands below 2^-52; not run under Miri");
+    rep.assume("nonconf-values regimes: 'non-conformable shapes are rejected by a panic' is a statement about shapes, so it is probed with operands of every value class for which a product could take a shortcut or a comparison behaves specially (all +0, all -0, mixed signed zeros, all ones, identity-like, all NaN, +-inf, a single non-zero entry, a constant, subnormal/huge magnitudes), in both operands or in one of them only; the finiteness assumption applies to the values of conformable products, not to rejection");
     rep.assume("block size 0 is outside the property ('every block size >= 1')");
     rep.assume("zero-sized dimensions are outside the quantifier (1..=9, 1..=64)");
     rep.exhaustive = Some(!cfg.lite);
@@ -851,6 +1004,13 @@ pub fn run(cfg: &Cfg, rep: &mut Report) {
             for i in 0..n_real {
                 random_real(cfg, &mut t, rng, 3 + 13 * i); // flags TT (square), then NN
             }
+            // value-class rejection probes, smoke (a panic costs ~0.1 s here): four classes, one flag pair each
+            for (k, &(class, side)) in [(0usize, 0usize), (2, 1), (4, 2), (5, 0)].iter().enumerate() {
+                let (ta, tb) = FLAGS[k];
+                slice_nonconf_values(&mut t, rng, 2, 1 + k % 2, 2 - k % 2, 2, ta, tb, class, side, false);
+            }
+            dot_nonconf_values(&mut t, rng, MM, 2, 1, 2, 2, 0, 3, 1, 0);
+            dot_nonconf_values(&mut t, rng, MV, 2, 2, 1, 1, 1, 1, 3, 1);
             t.flush(rep);
         });
     } else {
@@ -871,6 +1031,27 @@ pub fn run(cfg: &Cfg, rep: &mut Report) {
         par_cases(cfg, rep, 3, n_rand_nc, |i, rng, rep| {
             let mut t = Tally::new(lean);
             random_nonconf(cfg, &mut t, rng, i);
+            t.flush(rep);
+        });
+        // ---- rejection does not depend on the operand values ------------------------------------
+        let vpoints: Vec<(usize, usize, usize, usize, usize)> = nc
+            .iter()
+            .filter(|p| !p.4 && !p.5)
+            .flat_map(|&(m, la, lb, n, _, _)| (0..VCLASSES.len()).map(move |c| (m, la, lb, n, c)))
+            .enumerate()
+            .filter(|(i, _)| !cfg.lite || i % 8 == 0)
+            .map(|(_, p)| p)
+            .collect();
+        let all_sides = cfg.thorough();
+        par_cases(cfg, rep, 5, vpoints.len(), |i, rng, rep| {
+            let mut t = Tally::new(lean);
+            let (m, la, lb, n, class) = vpoints[i];
+            nonconf_values_point(&mut t, rng, i, m, la, lb, n, class, all_sides);
+            t.flush(rep);
+        });
+        par_cases(cfg, rep, 6, cfg.pick(600, 6000, 60), |i, rng, rep| {
+            let mut t = Tally::new(lean);
+            random_nonconf_values(&mut t, rng, i);
             t.flush(rep);
         });
         // ---- random real-valued shapes up to 64 --------------------------------------------
@@ -895,6 +1076,9 @@ pub fn run(cfg: &Cfg, rep: &mut Report) {
     }
     if !cfg.miri() {
         for r in R_DOT_SCALED..R_DOT_SCALED + 16 {
+            rep.require(&regime_name(r), 1);
+        }
+        for r in R_NCV..R_NCV + 2 * VCLASSES.len() {
             rep.require(&regime_name(r), 1);
         }
     }
